@@ -37,8 +37,8 @@ def check(run, prog, tier):
     sites = boltzmann_sites(prog)
     rule_A(run, prog, sites)
     rule_B(run, prog, sites)
-    rule_C(run, prog)
     rule_C2(run, prog)
+    rule_C(run, prog)
     rule_D(run, prog, sites)
     rule_E(run, prog, sites)
 
@@ -261,6 +261,8 @@ def rule_C(run, prog):
             return states
         walk(f.node.body, {}, ())
         if seen_wrap[0] == 0:
+            if any(x.rule == rid and x.key.startswith("defining-basis:") and "strong" not in x.key for x in run.findings):
+                continue     # already reported: the weak-coupling form no longer reads inside its context
             raise AnalysisError("%s: no eigenbasis-typed value reaches a density-matrix constructor" % f.short)
         for key, (c, src, ok) in sorted(reports.items()):
             run.obligation(rid, f.short, ok, key="wrap:" + key,
